@@ -101,7 +101,18 @@ func corrupt(e *core.Env, tp *core.Tape, base *m.Address, allowEasing, allowHuge
 	p := presented{pa: base.PublicAddress, priv: base.PrivateKey}
 	p.pa.PublicKey = append(ed25519.PublicKey(nil), base.PublicKey...)
 	for {
-		switch tp.Intn(12) {
+		switch tp.Intn(13) {
+		case 12: // the address of an identity that was verified a moment ago in this process (by
+			// another router of the simulation, as V itself would have before it pruned the record),
+			// now presented with the key pair of somebody else, who also signs: whatever a router
+			// remembers about verified addresses must not vouch for another key
+			if err := base.PublicAddress.VerifyAddress(); err != nil {
+				e.Infra("valid identity does not verify: %v", err)
+			}
+			pub, priv := ident.FromCounter(ident.Roaming, 3_000_000+uint64(tp.Intn(1<<20)))
+			p.pa.PublicKey, p.priv = pub, priv
+			p.what = "an address verified earlier in this process, with another identity's key"
+			e.Probe("verified_address_presented_with_foreign_key")
 		case 11: // a real key pair under a key-type name nobody knows, its address honestly derived
 			// from that name and key: everything fits together, only the type does not exist
 			name := []crop.KeyPairType{"NoSuchKeyType", "ed25519", "Ed25519 ", "X25519", "RSA"}[tp.Intn(5)]
